@@ -27,6 +27,9 @@ RULE = ('(1) operation sequences (30-45 ops) on a real ss.People: grow sizes aro
         '(3) module-set sims: any subset of {Births, Deaths, SIR, SIS, network} (also the empty one) with deaths requested by interventions, '
         'plain-function interventions and connectors, and Deaths / Births / requesters on their own timeline (finer / coarser dt, later start, earlier stop); '
         'for every sim the real loop plan is compared with the regenerated plan table instantiated by the model; '
+        '(4) array-holding modules of every kind (demographics, disease subclass, intervention, connector, analyzer, network) with several arrays whose state names collide '
+        'within the module, across modules and with built-in states; every array found on the module objects must be linked, registered and aligned, and keep the identifier-keyed values its module wrote; '
+        '(5) death requests in every key form (identifier array, python int, numpy integer, Boolean state) after agents with smaller identifiers were removed: exactly the named identifiers die; '
         'distinct = distinct canonical op sequence; non-trivial = at least one reallocation-free grow, one reallocating grow and one removal')
 TRUSTED = ['np.isin / np.unique as used by remove_dead; the monkey-patched recorders only observe (they call the original method first)',
            'harness/extractors/c10_plan.py: AST scan for writes to people.ti_dead / people.alive (setattr / helper-mediated writes are not seen); guards of the loop plan are evaluated with eval() on the real sim']
@@ -44,10 +47,64 @@ def lens(a):
     return f'{int(a.len_used)}:{int(a.len_tot)}'
 
 
+def owner_kind(m):
+    import starsim as ss
+    for k, c in (('people', ss.People), ('demographics', ss.Demographics), ('disease', ss.Disease), ('network', ss.Network), ('connector', ss.Connector),
+                 ('intervention', ss.Intervention), ('analyzer', ss.Analyzer)):
+        if isinstance(m, c): return k
+    return 'module'
+
+
+HOLDER_DEFAULT = dict(float='nan', bool='F', state='F', int='-9')
+
+
+def holder_tag(t, j, u):
+    """ what an array-holding probe module writes for agent `u` into its j-th array: a function of the IDENTIFIER """
+    if t == 'float': return cv(np.float64(u + 0.25 * (j + 1)))
+    if t == 'int': return str(int(u) * 3 + j)
+    return 'T' if (u + j) % 2 == 0 else 'F'
+
+
+def held_arrays(sim):
+    """ every per-agent array that People or a module of the sim holds as an attribute. Found by walking the objects themselves
+        (NOT through Module.states / People._states, which are the machinery under test): owner, attribute, state name, whether
+        it is linked to this sim's People and in its growth registry, (len_used:len_tot), len(raw); the stored values too for
+        the harness's own array-holding probe modules """
+    import starsim as ss
+    p = sim.people; out = []
+    owners = [p] + [m for m in sim.modules if isinstance(m, ss.Module)]
+    for obj in owners:
+        kind = owner_kind(obj); probe = getattr(obj, '_verif_holder', None)
+        for attr, a in list(vars(obj).items()):
+            if not isinstance(a, ss.Arr): continue
+            index_core = obj is p and attr in ('uid', 'slot', 'parent')       # grown explicitly by People.grow, not through the registry
+            d = dict(owner=kind, who=f"{kind} {getattr(obj, 'name', 'people')}.{attr}", name=str(a.name), linked=(a.people is p) or index_core,
+                     registered=(id(a) in p._states) or index_core,
+                     twin=sum(1 for b in vars(obj).values() if isinstance(b, ss.Arr) and b.name == a.name) > 1,
+                     lens=lens(a), rawlen=int(len(a.raw)))
+            if probe and attr in probe:
+                d['probe'] = probe[attr]; d['vals'] = [cv(x) for x in np.asarray(a.raw)]
+            out.append(d)
+    return out
+
+
+def named_agents(p, key):
+    """ the agents a death request names, BY IDENTIFIER, derived here from the form of the key (not through Arr._convert_key):
+        a scalar is one identifier, an identifier array is itself, a Boolean state names the active agents for which it is true """
+    import starsim as ss
+    if isinstance(key, ss.BoolArr):
+        au = np.asarray(p.auids); return [int(u) for u in au[np.asarray(key.raw)[au].astype(bool)]]
+    if isinstance(key, ss.Arr):
+        return [int(u) for u in np.asarray(key.raw)[np.asarray(p.auids)]]
+    if isinstance(key, slice):
+        return [int(u) for u in np.asarray(p.auids)[key]]
+    return [int(u) for u in np.asarray(key).reshape(-1)]
+
+
 def observe(p, sim, written):
     core = {id(p.alive), id(p.ti_dead)}
     others = [a for k, a in p._states.items() if k not in core]
-    return dict(n=int(p.uid.len_used), ti=int(sim.t.ti), au=[int(u) for u in p.auids],
+    return dict(held=held_arrays(sim), n=int(p.uid.len_used), ti=int(sim.t.ti), au=[int(u) for u in p.auids],
                 uid=(lens(p.uid), [cv(x) for x in np.asarray(p.uid.raw)]),
                 slot=(lens(p.slot), [cv(x) for x in np.asarray(p.slot.raw)]),
                 parent=(lens(p.parent), [cv(x) for x in np.asarray(p.parent.raw)]),
@@ -170,7 +227,13 @@ class RealPeople:
                 else: new = p.grow(op[1], np.array(op[2], dtype=np.int64)) if op[3] == 'both' else p.grow(new_slots=np.array(op[2], dtype=np.int64))
                 extra['new'] = [int(u) for u in new]
             elif o == 'request':
-                p.request_death(ss.uids(np.array(op[1], dtype=np.int64)))
+                form = op[3] if len(op) > 3 else 'uids'       # the same agents named one by one (python int / numpy integer) or as an identifier array
+                if form == 'int':
+                    for u in op[1]: p.request_death(int(u))
+                elif form == 'npint':
+                    for u in ss.uids(np.array(op[1], dtype=np.int64)): p.request_death(u)
+                else:
+                    p.request_death(ss.uids(np.array(op[1], dtype=np.int64)))
             elif o == 'stepdie':
                 extra['died'] = [int(u) for u in p.step_die()]
             elif o == 'results':
@@ -248,7 +311,7 @@ def gen_op(rng, w, only=None):
         elif q < 0.7 and alive_au: us = rng.sample(alive_au, rng.randint(1, max(1, len(alive_au) // 3)))
         else: us = [rng.randrange(n) for _ in range(rng.randint(1, 4))]          # any created agent, repeats, already dead
         if rng.random() < 0.3: us = us + us[:1]
-        return ['request', us]
+        return ['request', us, None, rng.choice(['uids', 'uids', 'int', 'npint'])]
     if r < 0.58: return ['stepdie']
     if r < 0.60: return ['copy', rng.choice(['pickle', 'deepcopy'])]
     if r < 0.62: return ['age']
@@ -282,7 +345,7 @@ def gen_structured(rng, w):
         if r < 0.62 and gone: return ['request', rng.sample(gone, min(len(gone), rng.randint(1, 3))) + (rng.sample(au, 1) if au and rng.random() < 0.5 else [])]   # already removed agents
         if r < 0.90 and au:
             us = rng.sample(au, rng.randint(1, max(1, len(au) // 4)))
-            return ['request', us + (us[:2] if rng.random() < 0.5 else [])]          # several requests for one agent
+            return ['request', us + (us[:2] if rng.random() < 0.5 else []), None, rng.choice(['uids', 'uids', 'int', 'npint'])]          # several requests for one agent, in any form
         if r < 0.95: return ['copy', rng.choice(['pickle', 'deepcopy'])]
         return ['age']
     if ph == 'post1':
@@ -397,7 +460,7 @@ def build_custom(cfg, extra):
     return ss.Sim(**pars)
 
 
-def record_sim(cfg, extra_module=None):
+def record_sim(cfg, extra_module=None, catch=False):
     """ run a sim with People.grow/request_death/step_die/update_results/finish_step recorded; returns the history """
     import starsim as ss
     P = ss.People
@@ -416,6 +479,8 @@ def record_sim(cfg, extra_module=None):
             pre_alive = np.asarray(self.alive.raw[:self.uid.len_used]).copy() if name == 'step_die' else None
             pre_stamped = stamped_living(self) if name in ('step_die', 'finish_step') else None
             pre_vals = {nm: [cv(x) for x in np.asarray(arr.raw)] for nm, arr in (('alive', self.alive), ('tidead', self.ti_dead), ('parent', self.parent))} if name == 'grow' else None
+            if name == 'grow': pre_vals['held'] = {h['who']: h['vals'] for h in held_arrays(state['sim']) if 'vals' in h}
+            named_agents_pre = named_agents(self, a[0] if a else kw.get('uids')) if name == 'request_death' else None      # read before the call: the key may be a live view
             out = f(self, *a, **kw)
             e = dict(op=name, ti=ti, phase=state['phase'])
             if pre_stamped is not None: e['pre_stamped'] = pre_stamped
@@ -426,7 +491,8 @@ def record_sim(cfg, extra_module=None):
                 e['new'] = [int(u) for u in np.asarray(out)]
             elif name == 'request_death':
                 us = a[0] if a else kw.get('uids')
-                e['uids'] = [int(u) for u in np.asarray(us.uids if hasattr(us, 'uids') and not isinstance(us, np.ndarray) else us).reshape(-1)]
+                e['uids'] = named_agents_pre if named_agents_pre is not None else named_agents(self, us)
+                e['form'] = type(us).__name__
                 fr = sys._getframe(1)
                 owner = fr.f_locals.get('self')
                 e['site'] = 'synthetic' if getattr(owner, '_verif_synthetic', False) else f"{type(owner).__name__ if owner is not None else '?'}.{fr.f_code.co_name}"
@@ -493,11 +559,18 @@ def record_sim(cfg, extra_module=None):
                 return w
             r.remove_uids = mk(key, r.remove_uids)
         start = observe(sim.people, sim, [])
-        sim.run()
+        error = None
+        try:
+            sim.run()
+        except Exception as e:
+            if not catch: raise
+            import traceback
+            tb = traceback.extract_tb(e.__traceback__)
+            error = f"{type(e).__name__}: {e} (in {tb[-1].name}, {tb[-1].filename.split('/')[-1]}:{tb[-1].lineno}) at sim.ti={int(sim.t.ti)}"      # the calls recorded up to here are still examined
     finally:
         for k, f in orig.items(): setattr(P, k, f)
         ss.Sim.finalize = orig_finalize
-    return dict(start=start, hist=hist, sim=sim, hooks=hooks, finalize=fin)
+    return dict(start=start, hist=hist, sim=sim, hooks=hooks, finalize=fin, error=error)
 
 
 def results_snapshot(sim):
@@ -579,6 +652,62 @@ def sim_lines(rec):
 #     the clock of the module that asks
 
 REQUESTER_KINDS = ['intervention', 'function', 'connector']
+# how a requester names the agents: an identifier array, one python int per agent, one numpy integer per agent (what iterating
+# over an identifier array gives), a Boolean state that is true for them
+REQUEST_FORMS = ['uids', 'int', 'npint', 'mask']
+
+
+def ask(p, us, form, mask=None):
+    """ request the death of the agents `us` (an ss.uids array of identifiers) in the given form """
+    if form == 'int':
+        for u in us: p.request_death(int(u))
+    elif form == 'npint':
+        for u in us: p.request_death(u)
+    elif form == 'mask':
+        mask[p.auids] = False; mask[us] = True
+        p.request_death(mask)
+    else:
+        p.request_death(us)
+
+
+HOLDER_BASES = dict(demographics=('Demographics', {}), intervention=('Intervention', {}), connector=('Connector', {}), analyzer=('Analyzer', {}),
+                    network=('RandomNet', dict(n_contacts=2)), disease=('SIR', dict(beta=0.2, init_prev=0.2, dur_inf=3, p_death=0.2)))
+
+
+def make_holder(h, i):
+    """ a module of the given kind that holds per-agent arrays as attributes: `arrays` = [attribute, state name, type]; attribute
+        names are distinct, state names may collide with each other and with the states of the base class (People's registry is
+        keyed by object so that they can). Each step it writes, for every active agent it has not seen yet, a value that is a
+        function of the agent's IDENTIFIER into every array, addressed by identifier """
+    import starsim as ss
+    base_name, base_kw = HOLDER_BASES[h['kind']]
+    base = getattr(ss, base_name)
+    specs = [list(a) for a in h['arrays']]
+
+    class ArrayHolder(base):
+        def __init__(self, **kw):
+            super().__init__(**kw)
+            self._verif_holder = {a: (t, j) for j, (a, nm, t) in enumerate(specs)}
+            for a, nm, t in specs:
+                setattr(self, a, make_arr(dict(name=nm, type=t, default=['unset'])))
+            self._tagged = 0
+
+        def step(self):
+            out = super().step() if h['kind'] in ('network', 'disease') else None
+            p = self.sim.people
+            au = np.asarray(p.auids)
+            new = au[au >= self._tagged]
+            if len(new):
+                for j, (a, nm, t) in enumerate(specs):
+                    arr = getattr(self, a)
+                    if t == 'float': arr[ss.uids(new)] = new + 0.25 * (j + 1)
+                    elif t == 'int': arr[ss.uids(new)] = new * 3 + j
+                    else: arr[ss.uids(new)] = (new + j) % 2 == 0
+            self._tagged = int(p.uid.len_used)
+            return out
+    ArrayHolder.__name__ = f'ArrayHolder_{base_name}'
+    return ArrayHolder(name=h.get('name', f'holder{i}'), **base_kw)
+
 
 
 def time_kw(t):
@@ -601,34 +730,40 @@ def build_modset(cfg):
         elif d['type'] == 'sis': dis.append(ss.SIS(beta=0.3, init_prev=0.3, name=d.get('name', 'sis'), **kw))
         else: raise HarnessError(d)
     nets = [ss.RandomNet(n_contacts=4) for nd in cfg.get('networks', []) if nd['type'] == 'random']
-    intvs = []; conns = []
+    intvs = []; conns = []; anas = []
     for i, r in enumerate(cfg.get('requesters', [])):
         every, off = int(r.get('every', 20)), int(r.get('offset', 0))
+        form = r.get('form', 'uids'); upto = r.get('upto')
         if r['kind'] == 'intervention':
             class Cull(ss.Intervention):
                 """ a programme that removes every k-th active agent each time it runs """
-                def __init__(self, every, off, **kw):
-                    super().__init__(**kw); self.every = every; self.off = off
+                def __init__(self, every, off, form, **kw):
+                    super().__init__(**kw); self.every = every; self.off = off; self.form = form; self.upto = upto
+                    if form == 'mask': self.define_states(ss.BoolArr('marked', default=False))
                 def step(self):
                     p = self.sim.people
-                    p.request_death(p.auids[self.off::self.every])
-            intvs.append(Cull(every, off, name=f'cull{i}', **time_kw(r.get('time'))))
+                    ask(p, p.auids[self.off::self.every][:self.upto], self.form, getattr(self, 'marked', None))
+            intvs.append(Cull(every, off, form, name=f'cull{i}', **time_kw(r.get('time'))))
         elif r['kind'] == 'function':
-            def mk(every, off):
+            def mk(every, off, form, upto):
                 def cull_func(sim):
-                    sim.people.request_death(sim.people.auids[off::every])
+                    ask(sim.people, sim.people.auids[off::every][:upto], form if form != 'mask' else 'uids')
                 cull_func.__name__ = f'cullfunc{i}'
                 return cull_func
-            intvs.append(mk(every, off))
+            intvs.append(mk(every, off, form, upto))
         elif r['kind'] == 'connector':
             class CullConn(ss.Connector):
-                def __init__(self, every, off, **kw):
-                    super().__init__(**kw); self.every = every; self.off = off
+                def __init__(self, every, off, form, **kw):
+                    super().__init__(**kw); self.every = every; self.off = off; self.form = form; self.upto = upto
+                    if form == 'mask': self.define_states(ss.BoolArr('marked', default=False))
                 def step(self):
                     p = self.sim.people
-                    p.request_death(p.auids[self.off::self.every])
-            conns.append(CullConn(every, off, name=f'cullconn{i}', **time_kw(r.get('time'))))
+                    ask(p, p.auids[self.off::self.every][:self.upto], self.form, getattr(self, 'marked', None))
+            conns.append(CullConn(every, off, form, name=f'cullconn{i}', **time_kw(r.get('time'))))
         else: raise HarnessError(r)
+    for i, h in enumerate(cfg.get('holders', [])):
+        m = make_holder(h, i)
+        dict(demographics=dem, intervention=intvs, connector=conns, analyzer=anas, network=nets, disease=dis)[h['kind']].append(m)
     pars = dict(n_agents=cfg['n_agents'], rand_seed=cfg.get('rand_seed', 1), verbose=0, unit=cfg.get('unit', 'year'), dt=cfg.get('dt', 1.0),
                 start=cfg.get('start', 2000), dur=cfg.get('dur', 8))
     for k in ('pop_scale', 'total_pop'):
@@ -638,6 +773,7 @@ def build_modset(cfg):
     if nets: pars['networks'] = nets
     if intvs: pars['interventions'] = intvs
     if conns: pars['connectors'] = conns
+    if anas: pars['analyzers'] = anas
     return ss.Sim(**pars)
 
 
@@ -663,6 +799,25 @@ MODSET_FIXED = [
            diseases=[dict(type='sir', p_death=0.5)], demographics=[dict(type='births', birth_rate=80), dict(type='deaths', death_rate=150)], requesters=[dict(kind='intervention', every=15)]),
     modset('total_pop that is not a multiple of n_agents (non-dyadic factor), deaths requested by a connector only', total_pop=617, dur=8,
            demographics=[dict(type='births', birth_rate=60)], requesters=[dict(kind='connector', every=9)]),
+    # round 5: every kind of module holds its own per-agent arrays; state names collide inside a module, across modules and with the built-in states
+    modset('array-holding modules of every kind (demographics, intervention, connector, analyzer, network): several arrays per module, state names colliding '
+           'within the module and across modules, under regrowth (Births) and mass removal (Deaths + a culling intervention)', dur=8, n_agents=40,
+           demographics=[dict(type='births', birth_rate=300), dict(type='deaths', death_rate=150)], networks=[dict(type='random')], requesters=[dict(kind='intervention', every=7)],
+           holders=[dict(kind='demographics', arrays=[['n_a', 'doses', 'float'], ['n_b', 'doses', 'float'], ['flag', 'flag', 'bool']]),
+                    dict(kind='intervention', arrays=[['first', 'count', 'int'], ['second', 'count', 'int'], ['third', 'count', 'int']]),
+                    dict(kind='connector', arrays=[['seen', 'flag', 'state'], ['x', 'doses', 'float']]),
+                    dict(kind='analyzer', arrays=[['m_a', 'measure', 'float'], ['m_b', 'measure', 'float']]),
+                    dict(kind='network', arrays=[['w_a', 'flag', 'bool'], ['w_b', 'doses', 'float'], ['w_c', 'weight', 'float']])]),
+    modset('a disease subclass that adds arrays whose state names are those of built-in states of its base class (a second clock, a second flag), births + disease deaths',
+           dur=8, n_agents=50, networks=[dict(type='random')], demographics=[dict(type='births', birth_rate=200)],
+           holders=[dict(kind='disease', name='sir2clock', arrays=[['ti_recovered_lab', 'ti_recovered', 'float'], ['lab_flag', 'lab_flag', 'state'], ['ti_dead_lab', 'ti_dead', 'float'], ['ti_dead_lab2', 'ti_dead', 'float']])]),
+    # round 5: the same agents named in every form a death request accepts, after agents with smaller identifiers have been removed
+    modset('deaths requested agent by agent (python int, numpy integer), by a Boolean state and by an identifier array, by modules that name the same agents in different forms; '
+           'earlier steps removed agents with smaller identifiers and Births keeps the identifier space growing', dur=8, n_agents=60,
+           demographics=[dict(type='births', birth_rate=150)],
+           requesters=[dict(kind='intervention', every=9, offset=0, form='uids'), dict(kind='intervention', every=9, offset=0, form='int', upto=2),
+                       dict(kind='connector', every=5, offset=1, form='npint', upto=3), dict(kind='intervention', every=13, offset=4, form='mask'),
+                       dict(kind='function', every=7, offset=3, form='int', upto=2)]),
 ]
 
 
@@ -679,13 +834,29 @@ def gen_modset_cfg(rng):
     if rng.random() < 0.5: dem.append(dict(type='deaths', death_rate=rng.choice([80, 200, 400]), time=own(0.8)))
     if rng.random() < 0.4: dis.append(rng.choice([dict(type='sir', p_death=rng.choice([0.3, 0.8])), dict(type='sis')]))
     nets = [dict(type='random')] if (dis or rng.random() < 0.3) else []
-    reqs = [dict(kind=rng.choice(REQUESTER_KINDS), every=rng.choice([8, 12, 20]), offset=rng.randint(0, 3), time=None) for _ in range(rng.choice([0, 1, 1, 2, 3]))]
+    reqs = [dict(kind=rng.choice(REQUESTER_KINDS), every=rng.choice([8, 12, 20]), offset=rng.randint(0, 3), time=None, form=rng.choice(REQUEST_FORMS)) for _ in range(rng.choice([0, 1, 1, 2, 3]))]
     for r in reqs:
         if r['kind'] != 'function': r['time'] = own(0.3)
+        if r['form'] in ('int', 'npint'): r['upto'] = rng.choice([2, 4, None])
     if not reqs and not any(d['type'] == 'deaths' for d in dem) and not any(d['type'] == 'sir' for d in dis):
         reqs = [dict(kind=rng.choice(REQUESTER_KINDS), every=10, offset=0, time=None)]
     cfg = dict(modset=True, n_agents=rng.choice([40, 70]), rand_seed=rng.randint(1, 99), unit='year', dt=dt, start=2000, dur=rng.choice([6, 8]),
                demographics=dem, diseases=dis, networks=nets, requesters=reqs)
+    if rng.random() < 0.5:
+        # array-holding modules: 1-3 holders of any kind, 2-4 arrays each, state names drawn from a small pool (so they collide)
+        pool = ['doses', 'count', 'flag', 'ti_dead', 'alive', 'age', 'weight']
+        hs = []
+        for _ in range(rng.randint(1, 3)):
+            kind = rng.choice(['demographics', 'intervention', 'connector', 'analyzer', 'network', 'disease'])
+            hs.append(dict(kind=kind, arrays=[[f'a{j}', rng.choice(pool + (['infected', 'ti_recovered'] if kind == 'disease' else [])), rng.choice(TYPES)] for j in range(rng.randint(2, 4))]))
+        if any(h['kind'] == 'disease' for h in hs) and not nets: cfg['networks'] = [dict(type='random')]
+        for j, h in enumerate(hs):
+            h['name'] = f"holder{j}{h['kind'][:3]}"
+            if h['kind'] == 'disease':      # a disease defines one result per Boolean state name: a second Boolean state of the same name is a rejected input
+                h['arrays'] = [[a, f'hflag{k}' if t in ('bool', 'state') else (nm if nm not in ('alive', 'flag', 'infected') else 'ti_infected'), t] for k, (a, nm, t) in enumerate(h['arrays'])]
+            if h['kind'] == 'network':      # notes/C10.md round 5, open observation: the built-in networks' init_post does not go through Module.init_post; keep the state names of ONE network distinct (they still collide across modules)
+                h['arrays'] = [[a, nm if nm not in [x[1] for x in h['arrays'][:k]] else f'{nm}{k}', t] for k, (a, nm, t) in enumerate(h['arrays'])]
+        cfg['holders'] = hs
     scale_kw(rng, cfg)
     return cfg
 
@@ -841,6 +1012,9 @@ class Tracker:
         self.flow = {}             # ti -> (agents created, agents that died) between the recordings of step ti-1 and ti, counted on the arrays
         self.loop_order = True     # the calls come in the order of the simulation loop (sims, structured sequences)
         self.step_calls = []       # People phases seen since the last finish_step
+        self.requested_ever = set()  # every identifier named in a recorded death request so far
+        self.forms = {}            # form of the key of every recorded request (uids / int / int64 / BoolArr ...)
+        self.check_unrequested = True
 
     def bad(self, oracle, what, **sig):
         self.fails.append((dict(oracle=oracle, **sig), what))
@@ -859,6 +1033,22 @@ class Tracker:
             lu, lt = map(int, s.split(':'))
             if lu != n or lt < lu or lt != rl:
                 self.bad('aligned', f'{where}: registered state #{i} has len_used={lu} len_tot={lt} len(raw)={rl} but the uid space has {n} ids', array='registered-state')
+        # every array any module holds (found on the objects, not in the registry) belongs to this population and is aligned with it
+        for h in o.get('held', []):
+            lu, lt = map(int, h['lens'].split(':'))
+            if not h['linked'] or not h['registered']:
+                self.bad('aligned', f"{where}: the array {h['who']} (state name `{h['name']}`) is held by a module of the sim but is "
+                         f"{'not linked to the People of the sim' if not h['linked'] else 'not in the growth registry of People'} (len_used={lu}, len(raw)={h['rawlen']}, uid space {n})", array='module-held', owner=h['owner'])
+            elif lu != n or lt < lu or lt != h['rawlen']:
+                sig = dict(array='module-held', owner=h['owner'])
+                if lu == 0 and h['rawlen'] == 0 and h['twin']: sig['cause'] = 'never-initialised-name-twin'      # registered and linked, but never allocated: its module holds another array with the same state name
+                self.bad('aligned', f"{where}: the array {h['who']} (state name `{h['name']}`) has len_used={lu} len_tot={lt} len(raw)={h['rawlen']} but the uid space has {n} ids"
+                         + (' (registered, never initialised; the module holds another array with the same state name)' if 'cause' in sig else ''), **sig)
+            if 'vals' in h:
+                t, j = h['probe']
+                off = next((u for u, x in enumerate(h['vals'][:n]) if x not in (HOLDER_DEFAULT[t], holder_tag(t, j, u))), None)
+                if off is not None:
+                    self.bad('values-preserved', f"{where}: {h['who']}[{off}] = {h['vals'][off]}: neither the default {HOLDER_DEFAULT[t]} nor the value {holder_tag(t, j, off)} its module wrote for agent {off}", array='module-held')
         au = o['au']
         if len(set(au)) != len(au): self.bad('active', f'{where}: auids has duplicates')
         if any(u >= n or u < 0 for u in au): self.bad('active', f'{where}: auids contains an id outside [0,{n})')
@@ -883,6 +1073,13 @@ class Tracker:
             for nm in ('alive', 'tidead', 'parent'):
                 before = (e.get('pre_vals') or {}).get(nm, prev[nm][1])
                 if o[nm][1][:prev['n']] != before[:prev['n']]: self.bad('values-preserved', f'{where}: grow changed existing values of people.{nm}', array=nm)
+            pre_held = (e.get('pre_vals') or {}).get('held') or {h['who']: h['vals'] for h in prev.get('held', []) if 'vals' in h}
+            for h in o.get('held', []):
+                if 'vals' in h and h['who'] in pre_held:
+                    if h['vals'][:prev['n']] != pre_held[h['who']][:prev['n']]:
+                        self.bad('values-preserved', f"{where}: grow changed existing values of {h['who']}", array='module-held')
+                    if any(x != HOLDER_DEFAULT[h['probe'][0]] for x in h['vals'][prev['n']:o['n']]):
+                        self.bad('new-agent-defaults', f"{where}: new agents start with {h['vals'][prev['n']:o['n']][:6]} in {h['who']} instead of the default", array='module-held')
             if any(x != 'T' for x in o['alive'][1][prev['n']:o['n']]): self.bad('values-preserved', f'{where}: new agents are not alive')
             if any(x != 'nan' for x in o['tidead'][1][prev['n']:o['n']]):
                 self.bad('new-agent-defaults', f"{where}: new agents {list(range(prev['n'], o['n']))[:6]} already carry a death stamp {o['tidead'][1][prev['n']:o['n']][:6]} (ti_dead must start unset)", array='ti_dead')
@@ -891,6 +1088,7 @@ class Tracker:
             self.created += k
         elif op == 'request_death':
             (self.requests_pre if e['phase'] == 'pre' else self.requests_post).setdefault(ti, set()).update(e['uids'])
+            self.requested_ever.update(e['uids']); self.forms[e.get('form', '?')] = self.forms.get(e.get('form', '?'), 0) + 1
             if e['phase'] == 'post':
                 for j, u in enumerate(e['uids']):
                     if u in set(o['au']) and o['alive'][1][u] == 'T':
@@ -908,6 +1106,9 @@ class Tracker:
             if len(e['died']) != len(set(e['died'])): self.bad('multi-request', f'{where}: step_die lists an agent twice')
             pre = set(u for u in self.requests_pre.get(ti, ()) if u in set(prev['au']) and prev['alive'][1][u] == 'T')
             if not pre <= flipped: self.bad('death-timing', f'{where}: agents {sorted(pre - flipped)[:5]} requested before death resolution of this step are still alive')
+            stray = sorted(flipped - self.requested_ever)
+            if stray and self.check_unrequested:
+                self.bad('death-timing', f"{where}: agents {stray[:6]} died although no death request ever named them (requests so far named {len(self.requested_ever)} agents; key forms {self.forms})", cause='unrequested')
             late = set(u for u in self.requests_post.get(ti - 1, ()) if u in set(prev['au']) and prev['alive'][1][u] == 'T')
             if not late <= flipped: self.bad('death-timing', f'{where}: agents {sorted(late - flipped)[:5]} requested after the previous death resolution are still alive')
             self.died_now = len(flipped); self.flipped_now = flipped; self.died += len(flipped)
@@ -976,12 +1177,14 @@ class Tracker:
 
 
 def oracle_sim(cfg, extra_module=None):
-    rec = record_sim(cfg, extra_module)
+    rec = record_sim(cfg, extra_module, catch=True)
     tr = Tracker(rec['start'])
+    tr.structural(rec['start'], 'after Sim.init')
     for e in rec['hist']:
         tr.call(e)
         if len(tr.fails) > 12: break
     tr.fails += finalize_fails(rec, tr)
+    if rec.get('error'): tr.bad('raises', f"the sim raised {rec['error']}", op='sim.run')
     # end-of-run cross-check against the published results
     sim = rec['sim']
     dead_total = int(np.count_nonzero(~np.asarray(sim.people.alive.raw[:sim.people.uid.len_used]))) - sum(1 for x in rec['start']['alive'][1][:rec['start']['n']] if x == 'F')
